@@ -310,7 +310,7 @@ class Populations:
 
             fs = [inter for _ in roots]
         elif check_same:
-            assert [fs[0] == a for a in fs[1:]], "not the same among populations"
+            assert all(fs[0] == a for a in fs[1:]), "not the same among populations"
 
         populations = [
             Population(
